@@ -179,8 +179,8 @@ pub fn c11(ctx: &mut Ctx, acc: &mut Acc) -> i32 {
 }
 
 pub fn c15(ctx: &mut Ctx, acc: &mut Acc) -> i32 {
-    let n_cat = ctx.n(80, 1500);
-    let n_der = ctx.n(25, 200);
+    let n_cat = ctx.n(500, 5000);
+    let n_der = ctx.n(100, 600);
     let ids: Vec<String> = ctx.my_subjects(|_| true).iter().map(|s| s.id().to_string()).collect();
     for id in &ids {
         let s = ctx.reg.get(id).unwrap();
@@ -234,7 +234,7 @@ pub fn c15(ctx: &mut Ctx, acc: &mut Acc) -> i32 {
         acc.count("types");
     }
     // the three inputs, result by result — ordinary and hostile read sequences
-    let rounds = ctx.n(40_000, 1_000_000);
+    let rounds = ctx.n(200_000, 2_000_000);
     crate::inputs::op_sequences(ctx, acc, "C15", false, rounds);
     crate::inputs::op_sequences(ctx, acc, "C15", true, rounds);
     0
